@@ -203,6 +203,87 @@ theorem SeenTop.step {s : State} {seen : List Nat} (inv : SInv s) (hle : SeenLe 
         left
         have := (uponDecided_height_ge s.c s.s x ⟨r, root, sg⟩).2
         omega
+  | decidedSF h r root sg ok via =>
+    have hfull : (Heights.step s (.decidedSF h r root sg ok via)).1.c.full = false := by
+      rcases step_decidedSF_c s h r root sg ok via with hc | hc
+      · rw [hc, processMsg_full]; exact hlight
+      · rw [hc, compactAt_full, processMsg_full]; exact hlight
+    refine ⟨hfull, ?_⟩
+    intro x hx hxe
+    -- the controller after ProcessMsg is AtTop in the relevant cases; compaction keeps that
+    suffices hp : x = (processMsg s.q s.c s.s h ⟨r, root, sg⟩ ok).1.height → AtTop (processMsg s.q s.c s.s h ⟨r, root, sg⟩ ok).1 by
+      rcases step_decidedSF_c s h r root sg ok via with hc | hc
+      · rw [hc] at hxe ⊢; exact hp hxe
+      · rw [hc] at hxe ⊢
+        rw [compactAt_height] at hxe
+        exact compact_atTop h (hp hxe)
+    intro hxe
+    unfold seenStep at hx
+    simp only [List.mem_append] at hx
+    rcases processMsg_cases s.q s.c s.s h ⟨r, root, sg⟩ ok with he | ⟨hok, hq, he⟩
+    · rw [he] at hxe ⊢
+      rcases hx with hx | hx
+      · exact htop x hx hxe
+      · unfold learns at hx
+        simp only at hx
+        -- an invalid / sub-quorum message teaches nothing
+        have : (ok && decide (s.q ≤ sg.length)) = false := by
+          unfold processMsg at he
+          cases ok
+          · rfl
+          · by_cases hq : sg.length < s.q
+            · simp; omega
+            · -- then processMsg = uponDecided, whose outcome is never `.err`
+              simp [hq] at he
+              have := congrArg (fun p => p.2.2) he
+              simp only [uponDecided_out] at this
+              split at this <;> cases this
+        simp [this] at hx
+    · rw [he] at hxe ⊢
+      apply uponDecided_atTop_light inv.top hlight
+      rcases hx with hx | hx
+      · have h1 := hle x hx
+        have h2 := (uponDecided_height_ge s.c s.s h ⟨r, root, sg⟩)
+        by_cases hch : s.c.height ≤ h
+        · exact Or.inl hch
+        · right
+          have : (uponDecided s.c s.s h ⟨r, root, sg⟩).1.height = s.c.height := by
+            have he2 := uponDecided_eq s.c s.s h ⟨r, root, sg⟩
+            simp only at he2
+            rw [he2]
+            simp only
+            split <;> omega
+          exact htop x hx (by omega)
+      · unfold learns at hx
+        simp only [hok, hq, decide_true, Bool.and_self, if_true, List.mem_singleton] at hx
+        subst hx
+        left
+        have := (uponDecided_height_ge s.c s.s x ⟨r, root, sg⟩).2
+        omega
+  | commits root vc =>
+    show SeenTop (commitsStep s root vc).1 _
+    rcases commitsStep_cases s root vc with ⟨h0, _⟩ | ⟨rh, i, _, hf, _, _, hc, _⟩
+    · rw [h0]
+      refine ⟨hlight, ?_⟩
+      intro x hx hxe
+      unfold seenStep learns consensusStart at hx
+      simp only [Option.toList, List.append_nil] at hx
+      exact htop x hx hxe
+    · rw [SeenTop, hc]
+      refine ⟨hlight, ?_⟩
+      intro x hx hxe
+      unfold seenStep learns consensusStart at hx
+      simp only [Option.toList, List.append_nil] at hx
+      have hat := htop x hx hxe
+      unfold AtTop at hat ⊢
+      show (find (replaceInst { i with decided := true, commits := singles s.q root } s.c.insts) s.c.height).isSome = true
+      by_cases hh : rh = s.c.height
+      · have hih : i.height = rh := find_some_height hf
+        rw [← hh, find_replaceInst_same (i' := { i with decided := true, commits := singles s.q root }) hf hih]
+        rfl
+      · have hih : i.height = rh := find_some_height hf
+        rw [find_replaceInst_other (by show i.height ≠ s.c.height; omega)]
+        exact hat
   | start slot =>
     rcases startish_cases s (.start slot) (Or.inl ⟨slot, rfl⟩) with ⟨hn, hc⟩ | ⟨sl, c', hcs, hst, hc⟩
     · rw [SeenTop, hc]
